@@ -262,13 +262,13 @@ def case_key(params):
     return ','.join('%s=%s' % (k, params[k]) for k in sorted(params)) or 'default'
 
 
-def run_case(h, built, work, params, kfmodes, tag, trace=False, no_witness=False):
+def run_case(h, built, work, params, kfmodes, tag, trace=False, no_witness=False, only_property=None):
     """compile + run cbmc for one case. returns dict"""
     with cpu_slot():
-        return run_case_(h, built, work, params, kfmodes, tag, trace, no_witness)
+        return run_case_(h, built, work, params, kfmodes, tag, trace, no_witness, only_property)
 
 
-def run_case_(h, built, work, params, kfmodes, tag, trace=False, no_witness=False):
+def run_case_(h, built, work, params, kfmodes, tag, trace=False, no_witness=False, only_property=None):
     hid = hashlib.md5((h.name + case_key(params) + tag).encode()).hexdigest()[:12]
     gb = os.path.join(work, 'c_%s.gb' % hid)
     d = dict(params); d.update({'KF_' + k: v for k, v in kfmodes.items()})
@@ -284,6 +284,11 @@ def run_case_(h, built, work, params, kfmodes, tag, trace=False, no_witness=Fals
     if uws:
         cmd += ['--unwindset', ','.join(uws)]
     backend = params.get('_backend')
+    if trace and only_property:
+        # counterexample extraction: the plain SAT back end on the one failing assertion, without formula slicing (slicing drops the
+        # input log from the trace). Finding a model is easy even where proving the other assertions needs the SMT back end
+        cmd += ['--property', only_property]
+        backend = None
     if backend == 'cvc5int':
         # SMT back end with bit-vector arithmetic solved as modular integer arithmetic (tools/smtshim/cvc5 adds
         # --solve-bv-as-int=sum): decides multiply/divide-by-constant kernels that bit blasting does not
@@ -323,7 +328,7 @@ def extract_inputs(trace_out):
     for m in re.finditer(r'^\s*vf_input_n=(\d+)', trace_out, re.M):
         n = max(n, int(m.group(1)))
     n = max(n, (max(vals) + 1) if vals else 0)
-    return [vals.get(i, 0) for i in range(n)]
+    return [vals.get(i) for i in range(n)]     # None: the input is not in the trace (sliced away, any value will do)
 
 
 def violated_property(trace_out):
@@ -397,7 +402,7 @@ def write_replay(prop_id, h, params, kfmodes, inputs, what):
     for k, v in sorted(params.items()):
         if not k.startswith('_'): body.append('case %s %s' % (k, v))
     for k, v in sorted(kfmodes.items()): body.append('case KF_%s %s' % (k, v))
-    for v in inputs: body.append('in %d' % v)
+    for v in inputs: body.append('any' if v is None else 'in %d' % v)
     text = '\n'.join(body) + '\n'
     hh = hashlib.md5(text.encode()).hexdigest()[:10]
     path = os.path.join(VERIF, 'replays', '%s-%s-%s.replay' % (prop_id, h.name, hh))
@@ -523,7 +528,8 @@ def check_property(prop, tier, seed, replay_path=None, only=None, keep=False, ve
                 continue
             if tag == 'main':
                 ev['queries_fail'] += 1; ph['fail'] += 1
-            tr = run_case(h, built_units[h.unit.name], work, params, modes, tag + 'trace', trace=True, no_witness=True)
+            tr = run_case(h, built_units[h.unit.name], work, params, modes, tag + 'trace', trace=True, no_witness=True,
+                          only_property=(hard[0][0] if params.get('_backend') else None))
             inputs = extract_inputs(tr.get('out') or '')
             what = violated_property(tr.get('out') or '') or '; '.join(f[2] for f in hard[:3])
             rp = write_replay(prop.id, h, params, modes, inputs, what)
